@@ -32,17 +32,36 @@ def same_info(a, b):
             and np.array_equal(sa.flux, sb.flux, equal_nan=True) and np.array_equal(sa.error, sb.error, equal_nan=True))
 
 
-def block_sizes(path):
+def meta_sizes(path):
+    """sizes of the three metadata blocks (pickles) at the head of a fit file"""
     sizes = []
     with open(path, 'rb') as f:
         last = 0
-        while True:
-            try:
-                pickle.load(f)
-            except EOFError:
-                break
+        for _ in range(3):
+            pickle.load(f)
             sizes.append(f.tell() - last)
             last = f.tell()
+    return sizes
+
+
+def record_sizes(infos, path_of):
+    """size in bytes of each record AS THE WRITER LAYS IT OUT (whatever it consists of): written files
+    with 1, 2, ... records differ by exactly one record"""
+    from sedfitter.fit_info import FitInfoFile
+    lens = []
+    for k in range(1, len(infos) + 1):
+        p = path_of(k)
+        fo = FitInfoFile(p, 'w')
+        for info in infos[:k]:
+            fo.write(info)
+        fo.close()
+        lens.append(os.path.getsize(p))
+    msz = meta_sizes(path_of(1))
+    sizes = list(msz)
+    prev = sum(msz)
+    for L in lens:
+        sizes.append(L - prev)
+        prev = L
     return sizes
 
 
@@ -57,16 +76,26 @@ def one_file(sd, root, step):
         conv = rng.random() < 0.5
         infos = []
         path = os.path.join(w.dir, 'out.fitinfo')
-        fout = FitInfoFile(path, 'w')
+        handmade = (sd % 2 == 1)       # records built through the public FitInfo constructor with plain arrays
         for i in range(nrec):
             info = w.fit(fw.make_source(rand_source(rng, nb, False), name='s%d' % i))
             if not conv:
                 info.model_fluxes = None
             info.keep(('N', rng.randint(0, nm)))
-            fout.write(info)
+            if handmade:
+                from sedfitter.fit_info import FitInfo
+                h_ = FitInfo(source=info.source)
+                nf = rng.choice([0, 1, 3, 17, 60])
+                h_.av = np.linspace(0.5, 9.5, nf)
+                h_.sc = -np.linspace(0.25, 2.0, nf)
+                h_.chi2 = np.sort(rng.random() * 50.0 + np.arange(nf) * 1.25)
+                h_.model_id = np.arange(nf)[::-1].copy()
+                h_.model_name = np.array(['hand_%03d' % k for k in range(nf)], dtype='U20')
+                h_.model_fluxes = (np.arange(nf * nb, dtype=float).reshape(nf, nb) + 0.5) if conv else None
+                h_.meta = info.meta
+                info = h_
             infos.append(info)
-        fout.close()
-        sizes = block_sizes(path)
+        sizes = record_sizes(infos, lambda k: path if k == nrec else os.path.join(w.dir, 'prefix_%d.fitinfo' % k))
         data = open(path, 'rb').read()
         if sum(sizes) != len(data):
             raise MachineryError('file is not a sequence of pickles: %r vs %d bytes' % (sizes, len(data)))
